@@ -5,6 +5,7 @@ import (
 	"context"
 	"encoding/binary"
 	"fmt"
+	"runtime"
 	"sort"
 	"strings"
 	"sync"
@@ -476,6 +477,180 @@ func TestC15Isolation(t *testing.T) {
 			if ev.NonTrivial(sub, key) {
 				ev.Sample(sub, key)
 			}
+		}
+	})
+}
+
+// yieldSwarm delays every Tell/Ask a little before passing it on, so that concurrent callers of the
+// layer above overlap between building a frame and the transport copying it.
+type yieldSwarm struct {
+	stack.Swarm
+	ask stack.AskBidi
+}
+
+func (y yieldSwarm) Tell(ctx context.Context, dst stack.Addr, v p2p.IOVec) error {
+	runtime.Gosched()
+	time.Sleep(20 * time.Microsecond)
+	return y.Swarm.Tell(ctx, dst, v)
+}
+func (y yieldSwarm) Ask(ctx context.Context, resp []byte, dst stack.Addr, v p2p.IOVec) (int, error) {
+	runtime.Gosched()
+	time.Sleep(20 * time.Microsecond)
+	return y.ask.Ask(ctx, resp, dst, v)
+}
+func (y yieldSwarm) ServeAsk(ctx context.Context, fn func(context.Context, []byte, stack.Msg) int) error {
+	return y.ask.ServeAsk(ctx, fn)
+}
+
+// TestC15Concurrent: framing stays per call when several goroutines use the same channels at once.
+func TestC15Concurrent(t *testing.T) {
+	const sub = "C15.concurrent_senders"
+	ev.Rule(sub, "rapid: two nodes on the in-memory transport (sender side wrapped so that the transport call yields), one multiplexer of a generated kind each with 1-4 channels open on both sides; 2-8 goroutines each tell/ask 10-60 distinct short payloads (1-40 bytes, mostly <= 12) on generated channels concurrently. Oracle: the multiset of payloads each channel's swarm received is a sub-multiset of what was sent on that channel (nothing altered, nothing crossed over, nothing duplicated), and every ask is answered by its own channel. non-trivial = >= 2 goroutines on one channel; distinct by parameters")
+	rapid.Check(t, func(t *rapid.T) {
+		kind := rapid.SampledFrom(muxKinds).Draw(t, "kind")
+		ids := genChanSet(t, kind)
+		if len(ids) > 4 {
+			ids = ids[:4]
+		}
+		senders := rapid.IntRange(2, 8).Draw(t, "goroutines")
+		per := rapid.IntRange(10, 60).Draw(t, "perGoroutine")
+		spec := stack.Spec{Base: "mem", BaseMTU: 4096, QueueLen: 4096}
+		w, err := stack.Build(spec, 2, 0)
+		if err != nil {
+			t.Fatalf("harness: %v", err)
+		}
+		defer w.Close()
+		a, b := w.Nodes[0], w.Nodes[1]
+		sendChans, err := stack.OpenMux(kind, p2p.ComposeAskSwarm[stack.Addr](yieldSwarm{a.S, a.A}, yieldSwarm{a.S, a.A}), true, ids)
+		if err != nil {
+			t.Fatalf("OpenMux: %v", err)
+		}
+		recvChans, err := stack.OpenMux(kind, p2p.ComposeAskSwarm[stack.Addr](b.S, b.A), true, ids)
+		if err != nil {
+			t.Fatalf("OpenMux: %v", err)
+		}
+		ctx, cancel := context.WithCancel(context.Background())
+		defer cancel()
+		cr := serveChannels(ctx, recvChans)
+		type plan struct {
+			ch  int
+			ask bool
+			len int
+		}
+		plans := make([][]plan, senders)
+		perChan := map[int]int{}
+		for g := range plans {
+			ch := rapid.IntRange(0, len(ids)-1).Draw(t, "chan")
+			perChan[ch]++
+			for i := 0; i < per; i++ {
+				l := rapid.IntRange(1, 12).Draw(t, "len")
+				if rapid.IntRange(0, 5).Draw(t, "longer") == 0 {
+					l = rapid.IntRange(13, 40).Draw(t, "longLen")
+				}
+				plans[g] = append(plans[g], plan{ch: ch, ask: rapid.IntRange(0, 3).Draw(t, "ask") == 0, len: l})
+			}
+		}
+		desc := fmt.Sprintf("kind=%s ids=%q goroutines=%d per=%d", kind, shortIDs(ids), senders, per)
+		sentTell := map[int]map[string]int{}
+		sentAsk := map[int]map[string]int{}
+		payloadOf := func(g, i, l int) []byte {
+			p := []byte(fmt.Sprintf("%c%02d%03d", 'A'+g, g, i))
+			for len(p) < l {
+				p = append(p, byte('a'+(g+i)%26))
+			}
+			return p[:max(l, 6)]
+		}
+		for g := range plans {
+			for i, p := range plans[g] {
+				m := sentTell
+				if p.ask {
+					m = sentAsk
+				}
+				if m[p.ch] == nil {
+					m[p.ch] = map[string]int{}
+				}
+				m[p.ch][string(payloadOf(g, i, p.len))]++
+			}
+		}
+		var wg sync.WaitGroup
+		var pmu sync.Mutex
+		var problems []string
+		for g := range plans {
+			g := g
+			wg.Add(1)
+			go func() {
+				defer wg.Done()
+				for i, p := range plans[g] {
+					pl := payloadOf(g, i, p.len)
+					c, cf := context.WithTimeout(ctx, ev.Extended(2*time.Second))
+					if p.ask {
+						resp := make([]byte, 32)
+						n, err := sendChans[p.ch].(stack.AskBidi).Ask(c, resp, b.Local(), p2p.IOVec{pl})
+						if err == nil && string(resp[:n]) != fmt.Sprintf("chan%d", p.ch) {
+							pmu.Lock()
+							problems = append(problems, fmt.Sprintf("an ask on channel %q was answered by %q", ids[p.ch], resp[:n]))
+							pmu.Unlock()
+						}
+					} else {
+						sendChans[p.ch].Tell(c, b.Local(), p2p.IOVec{pl})
+					}
+					cf()
+				}
+			}()
+		}
+		wg.Wait()
+		total := 0
+		for _, m := range sentTell {
+			for _, c := range m {
+				total += c
+			}
+		}
+		ev.Patient(300*time.Millisecond, func() bool {
+			tells, _ := cr.snapshot()
+			n := 0
+			for _, ps := range tells {
+				n += len(ps)
+			}
+			return n >= total
+		})
+		tells, asks := cr.snapshot()
+		check := func(got map[int][][]byte, sent map[int]map[string]int, verb string) {
+			for ch, ps := range got {
+				seen := map[string]int{}
+				for _, p := range ps {
+					seen[string(p)]++
+					if seen[string(p)] > sent[ch][string(p)] {
+						where := "was never sent"
+						for oc, m := range sent {
+							if m[string(p)] > 0 && oc != ch {
+								where = fmt.Sprintf("was sent on channel %q", ids[oc])
+							}
+						}
+						if sent[ch][string(p)] > 0 {
+							where = "was sent once on this channel"
+						}
+						pmu.Lock()
+						problems = append(problems, fmt.Sprintf("channel %q received the %s payload %q (%d times) which %s", ids[ch], verb, p, seen[string(p)], where))
+						pmu.Unlock()
+						return
+					}
+				}
+			}
+		}
+		check(tells, sentTell, "tell")
+		check(asks, sentAsk, "ask")
+		ev.Eval(sub)
+		shared := false
+		for _, c := range perChan {
+			shared = shared || c >= 2
+		}
+		if shared {
+			if ev.NonTrivial(sub, desc) {
+				ev.Sample(sub, desc)
+			}
+		}
+		if len(problems) > 0 {
+			t.Fatalf("%s\ncase: %s", strings.Join(problems[:min(3, len(problems))], "\n"), desc)
 		}
 	})
 }
